@@ -40,6 +40,8 @@ ReflectionFails(ev) ==
 StructureFactorFails(ev) ==
   IF ev.raised THEN {"structure_factor_raises"}
   ELSE (IF ev.friedel_ppb <= Tol THEN {} ELSE {"F_of_minus_h_is_not_the_conjugate"})
+  \* a tabulated reflection with a non-vanishing structure factor whose Friedel partner is not tabulated at all: F(-h) is absent, not conj F(h)
+  \cup (IF ev.friedel_missing = 0 THEN {} ELSE {"friedel_partner_not_tabulated"})
   \cup (IF \A i \in 1..Len(ev.mag) :
              (~Allowed(<<ev.mag[i][1], ev.mag[i][2], ev.mag[i][3]>>, ev.centering)) => ev.mag[i][4] <= Tol
         THEN {} ELSE {"forbidden_reflection_has_a_structure_factor"})
@@ -68,10 +70,10 @@ VARIABLES c, done
 vars == <<c, done>>
 Crystals == {"Si", "Cu", "Fe", "Po", "orthoA", "orthoB", "orthoC", "Mg", "NaCl", "CsCl"}
 (* primitive crystals in which one species alone sits on a centred sub-lattice (body / base centred oxygen, a third atom on a general site) *)
-SfCrystals == Crystals \cup {"mixedI", "mixedC"}
+SfCrystals == Crystals \cup {"mixedI", "mixedC", "Po4"}          \* Po4: cubic, a = 4 A, so that g_max x a is an integer (reflections on the cutoff sphere)
 (* small_chunks: the dask chunk-size configuration is a few kB, so that any internal batching over reflections takes several rounds *)
-Init == /\ \/ \E x \in SfCrystals, th \in BOOLEAN, occ \in BOOLEAN, gm \in 1..2, lz \in BOOLEAN, sc \in BOOLEAN :
-                 c = [k |-> "sf", crystal |-> x, thermal |-> th, partial_occupancy |-> occ, g_max |-> gm, lazy |-> lz, small_chunks |-> sc]
+Init == /\ \/ \E x \in SfCrystals, th \in BOOLEAN, occ \in BOOLEAN, gm \in 1..2, lz \in BOOLEAN, sc \in BOOLEAN, hc \in BOOLEAN :
+                 c = [k |-> "sf", crystal |-> x, thermal |-> th, partial_occupancy |-> occ, g_max |-> gm, lazy |-> lz, small_chunks |-> sc, hard_cutoff |-> hc]
            \* order: how the requested thickness list is arranged (each row must belong to the thickness it is requested for)
            \/ \E x \in Crystals, o \in 1..4, e \in 1..2, sg \in 1..2, gm \in 1..2, weq \in BOOLEAN, ord \in {"ascending", "descending", "unsorted", "repeated"}, pre \in BOOLEAN :
                  \* prebuilt: the structure factors are built once (eagerly) and the array has already been used by an earlier calculation
